@@ -34,7 +34,14 @@ RULE = (
     "columns (one or two at a time) compared with the declarative specification `pin-spec-args`, every argument x "
     "entry point x call form once; 2-4 files per call "
     "(list | tuple, mixed formats, one malformed member at any position); the row index of spectra_dataframe; "
-    "label columns written as floats (1.0 / -1.0 / 0.0) or holding one fractional value"
+    "label columns written as floats (1.0 / -1.0 / 0.0) or holding one fractional value; second pass "
+    "(GAPS-C10.md 'Second pass'): spectrum-key cells beyond 2^24 / 2^31 / 2^53 and with fractional parts, "
+    "feature cells +-inf and booleans, CRLF / missing final newline / gzip text files, an iterator of paths, "
+    "label columns typed int8..uint64 / float32 and the label 2^64-1; metadata_column_types vs the types "
+    "read independently from the file (`pin-types`); create_chunks_with_identifier called directly on every "
+    "(features 0..60, identifiers 1..5, chunk size) vs `pin-idchunks` and the cover / together / size clauses; "
+    "OnDiskPsmDataset(...) constructed directly with one or two perturbed fields (absent / wrong-case / empty "
+    "/ None name, extra or replaced list member, filename=None) vs `pin-checks` and the restated check order"
 )
 
 REQUIRED = ["specid", "peptide", "proteins", "label", "scannr"]
@@ -134,15 +141,25 @@ def gen_case(rng, nmax=60, force=None):
     else:
         lab = [1 if t else rng.choice([0, -1]) for t in targets]
     add(nm["label"], lab)
-    add(nm["scannr"], [1000 + rng.randint(0, 5) for _ in range(nrows)])
+    # spectrum-key cells: "wide" values cannot survive a cast to int32 / float32 / int / float unnoticed
+    # (one fractional decimal digit only: the text parser of pandas is exact on such literals)
+    key_style = force.get("key_style", rng.choice(["small", "small", "wide"]))
+    scan0 = 1000 if key_style == "small" else rng.choice([2 ** 31, 2 ** 53 - 10, 2 ** 24 + 1])  # (< 2^53: a scan column with a missing cell is decoded as float64)
+    add(nm["scannr"], [scan0 + rng.randint(0, 5) for _ in range(nrows)])
+
+    def mass(base):
+        if key_style == "small":
+            return base + rng.randint(0, 9)
+        return rng.choice([base, 2 ** 24 + 1]) + rng.randint(0, 9) + rng.choice([0.5, 0.25, 0.75, 0.5])
+
     if "filename" in opt:
         add(nm["filename"], [f"run{rng.randint(0, 2)}.mzML" for _ in range(nrows)])
     if "expmass" in opt:
-        add(nm["expmass"], [500 + rng.randint(0, 9) for _ in range(nrows)])
+        add(nm["expmass"], [mass(500) for _ in range(nrows)])
     if "calcmass" in opt:
-        add(nm["calcmass"], [500 + rng.randint(0, 9) for _ in range(nrows)])
+        add(nm["calcmass"], [mass(500) for _ in range(nrows)])
     if "ret_time" in opt:
-        add(nm["ret_time"], [10 + rng.randint(0, 9) for _ in range(nrows)])
+        add(nm["ret_time"], [mass(10) for _ in range(nrows)])
     if charge_style != "none":
         add(nm["charge_column"], [2 + rng.randint(0, 1) for _ in range(nrows)])
     na_mode = force.get("na_mode", rng.choice(["none", "none", "sparse", "sparse", "dense", "first", "last",
@@ -150,9 +167,16 @@ def gen_case(rng, nmax=60, force=None):
     p_na = {"sparse": rng.choice([0.02, 0.05, 0.1]), "dense": 0.4}.get(na_mode, 0.0)
     float_cols = rng.random() < 0.3
     str_feature = rng.randrange(n_feat) if rng.random() < 0.1 else None
+    # feature cells that are not missing although they are not ordinary numbers: +-inf, booleans
+    inf_feature = rng.randrange(n_feat) if rng.random() < 0.12 else None
+    bool_feature = rng.randrange(n_feat) if rng.random() < 0.08 else None
     for j, f in enumerate(feats):
         if j == str_feature:
             cells = [rng.choice(["a", "b", "xyz"]) for _ in range(nrows)]
+        elif j == inf_feature:
+            cells = [rng.choice([float("inf"), float("-inf"), 0.5, 1.5]) for _ in range(nrows)]
+        elif j == bool_feature:
+            cells = [rng.random() < 0.5 for _ in range(nrows)]
         elif float_cols and rng.random() < 0.5:
             cells = [rng.randint(-40, 40) + 0.5 for _ in range(nrows)]
         else:
@@ -204,8 +228,18 @@ def gen_case(rng, nmax=60, force=None):
         kind="wellformed",
         entry=rng.choice(["read_pin", "read_pin", "read_percolator"]),
         call=rng.choice(["kw", "kw", "pos"]),
-        form=rng.choice(["path", "path", "list", "tuple"]),
+        form=rng.choice(["path", "path", "list", "tuple", "iter"]),
+        # shape of a text file: line terminator, final newline, gzip container
+        eol=rng.choice(["\n", "\n", "\n", "\r\n"]),
+        final_eol=rng.random() < 0.85,
+        gz=rng.random() < 0.08,
+        # Arrow type of an integer / float label column in a Parquet file (None: int64 / float64)
+        label_type=rng.choice([None, None, None, "int8", "int16", "int32", "uint8", "uint32", "float32"]),
+        key_style=key_style,
+        specials=("inf" if inf_feature is not None else "") + ("bool" if bool_feature is not None else ""),
     )
+    if case["gz"] and fmt != "parquet":
+        case["suffix"] += ".gz"
     return case
 
 
@@ -246,7 +280,9 @@ def with_args(rng, case):
     return case
 
 
-MALFORMED_KINDS = ["drop-required", "dup-required", "label-range", "dup-optional", "label-na", "label-text"]
+MALFORMED_KINDS = ["drop-required", "dup-required", "label-range", "dup-optional", "label-na", "label-text",
+                   "label-wrap64"]
+U64_MAX = 2 ** 64 - 1
 
 
 def malform(rng, case, kind=None):
@@ -272,6 +308,13 @@ def malform(rng, case, kind=None):
         cells[rng.randrange(nrows)] = rng.choice([2, -2, 3, 7, -5, 255, 256, 257, -255, -257, 513, 65535, 65537,
                                                    4294967297, -4294967295])
         cols[i][1] = cells
+    elif kind == "label-wrap64":
+        # an unsigned 64-bit label column (no negative value, one value 2^64 - 1 = -1 modulo 2^64)
+        i = lower["label"]
+        cells = [1 if (x is True or (x == 1 and not isinstance(x, bool))) else 0 for x in cols[i][1]]
+        cells[rng.randrange(nrows)] = U64_MAX
+        cols[i][1] = cells
+        case["label_type"] = None
     elif kind == "dup-optional":
         q = rng.choice(OPTIONAL + ["charge_column"])
         if q in lower:
@@ -312,15 +355,25 @@ def cell_text(x, na_token, bool_text="title"):
     return str(x)
 
 
+INT_RANGES = {"int8": (-2 ** 7, 2 ** 7 - 1), "int16": (-2 ** 15, 2 ** 15 - 1), "int32": (-2 ** 31, 2 ** 31 - 1),
+              "uint8": (0, 2 ** 8 - 1), "uint32": (0, 2 ** 32 - 1)}
+
+
 def write_case(case, path: Path):
     cols = case["cols"]
     nrows = len(cols[0][1]) if cols else 0
     if case["fmt"] == "pin":
+        eol = case.get("eol", "\n")
         lines = ["\t".join(n for n, _ in cols)]
         for i in range(nrows):
             lines.append("\t".join(cell_text(cells[i], case["na_token"], case.get("bool_text", "title"))
                                    for _, cells in cols))
-        path.write_text("\n".join(lines) + "\n", encoding="utf-8")
+        data = (eol.join(lines) + (eol if case.get("final_eol", True) else "")).encode("utf-8")
+        if str(path).endswith(".gz"):
+            import gzip
+
+            data = gzip.compress(data)
+        path.write_bytes(data)
     else:
         import pyarrow as pa
         import pyarrow.parquet as pq
@@ -328,12 +381,21 @@ def write_case(case, path: Path):
         arrays, names = [], []
         for n, cells in cols:
             vals = [x for x in cells if x is not None]
+            ltype = case.get("label_type") if n.lower() == "label" else None
             if any(isinstance(x, str) for x in vals):
                 arr = pa.array([None if x is None else str(x) for x in cells], type=pa.string())
             elif vals and all(isinstance(x, bool) for x in vals):
                 arr = pa.array(cells, type=pa.bool_())
             elif any(isinstance(x, float) for x in vals) or (case["nan_style"] == "nan" and len(vals) < len(cells)):
-                arr = pa.array([float("nan") if x is None else float(x) for x in cells], type=pa.float64())
+                typ = pa.float32() if (ltype == "float32" and all(float(x) == int(x) and abs(x) < 2 ** 24 for x in vals)) \
+                    else pa.float64()
+                arr = pa.array([float("nan") if x is None else float(x) for x in cells], type=typ)
+            elif vals and max(vals) >= 2 ** 63:
+                arr = pa.array(cells, type=pa.uint64())
+            elif ltype in INT_RANGES and vals and INT_RANGES[ltype][0] <= min(vals) and max(vals) <= INT_RANGES[ltype][1]:
+                arr = pa.array(cells, type=getattr(pa, ltype)())
+            elif ltype == "float32" and vals and len(vals) == len(cells) and all(abs(x) < 2 ** 24 for x in vals):
+                arr = pa.array([float(x) for x in cells], type=pa.float32())
             else:
                 arr = pa.array(cells, type=pa.int64())
             arrays.append(arr)
@@ -373,6 +435,7 @@ def dataset_dict(ds):
         df_columns=[str(x) for x in df.columns],
         target_dtype=str(df[tcol].dtype) if tcol in df.columns and list(df.columns).count(tcol) == 1 else "?",
         path=str(ds.filename),
+        meta_types=[str(x) for x in (ds.metadata_column_types or [])],
     )
     out["spectra"] = [[str(cn), [canon_value(v) for v in df.iloc[:, j].tolist()]]
                       for j, cn in enumerate(df.columns) if j < len(df.columns) - 1]
@@ -398,6 +461,8 @@ def call_entry(case, paths):
         files = paths[0]
     elif form == "tuple":
         files = tuple(paths)
+    elif form == "iter":
+        files = iter(list(paths))  # `tuplize` accepts any iterable of paths
     else:
         files = list(paths)
     if case.get("call") == "pos":
@@ -423,6 +488,18 @@ def run_impl_files(case, paths):
     if not isinstance(res, list):
         return "ok", [dict(malformed_result=repr(type(res)))]
     return "ok", [dataset_dict(ds) for ds in res]
+
+
+def file_types(case, path: Path):
+    """the type of every column as the file itself says (read without mokapot): Arrow schema types of a Parquet
+    file, the dtypes pandas infers from the first two data rows of a text file"""
+    if case["fmt"] == "parquet":
+        import pyarrow.parquet as pq
+
+        sch = pq.read_schema(path)
+        return [[n, str(t)] for n, t in zip(sch.names, sch.types)]
+    df = pd.read_csv(path, sep="\t", index_col=False, nrows=2)
+    return [[str(n), str(t)] for n, t in zip(df.columns, df.dtypes)]
 
 
 def run_impl(case, path: Path):
@@ -493,6 +570,8 @@ CLAUSE = {
     "targets": "targets are not exactly the rows labelled 1/true",
     "metadata": "metadata columns differ",
     "index": "row index of the spectra data frame is not 0..n-1 in file order",
+    "path": "dataset.filename is not the path that was parsed",
+    "meta_types": "metadata_column_types are not the types of the metadata columns, in the order of metadata_columns",
 }
 
 
@@ -522,7 +601,10 @@ def must_reject(case):
             return "required column present in several letter cases"
     lab = [cells for n, cells in case["cols"] if n.lower() == "label"][0]
     if not all(isinstance(x, bool) for x in lab):
-        if any(isinstance(x, int) and not isinstance(x, bool) and (x < -1 or x > 1) for x in lab):
+        outside = [x for x in lab if isinstance(x, int) and not isinstance(x, bool) and (x < -1 or x > 1)]
+        if outside and all(x == U64_MAX for x in outside):
+            return "label 2^64-1 outside {-1, 0, 1}"  # (own signature: the cast of an unsigned 64-bit column wraps)
+        if outside:
             return "label outside {-1, 0, 1}"
     return None
 
@@ -590,11 +672,17 @@ def jsonable(case):
 def eval_cases(chk, cases, tmpdir: Path):
     files = [c for c in cases if c.get("kind", "").startswith("files")]
     labels = [c for c in cases if c.get("kind", "").startswith("labels")]
+    idch = [c for c in cases if c.get("kind", "") == "idchunks"]
+    ctor = [c for c in cases if c.get("kind", "") == "ctor"]
     if files:
         eval_files_cases(chk, files, tmpdir)
     if labels:
         eval_label_cases(chk, labels, tmpdir)
-    cases = [c for c in cases if not c.get("kind", "").startswith(("files", "labels"))]
+    if idch:
+        eval_idchunks_cases(chk, idch)
+    if ctor:
+        eval_ctor_cases(chk, ctor, tmpdir)
+    cases = [c for c in cases if not c.get("kind", "").startswith(("files", "labels", "idchunks", "ctor"))]
     lines = []
     for c in cases:
         tb = wire_table(c)
@@ -603,6 +691,7 @@ def eval_cases(chk, cases, tmpdir: Path):
         lines.append(req("pin-index", wire_args(c), c["c"], c["r"], tb))
         lines.append(req("pin-spec-args", wire_args(c), tb))
     resp = common.driver_batch(lines)
+    type_reqs = []  # (case index, oracle types) of the cases whose metadata types are compared with `pin-types`
     for i, c in enumerate(cases):
         mresp = dec(resp[4 * i])
         sresp = dec(resp[4 * i + 1])
@@ -619,6 +708,10 @@ def eval_cases(chk, cases, tmpdir: Path):
         path = tmpdir / f"case{i}{c['suffix']}"
         write_case(c, path)
         status, out = run_impl(c, path)
+        try:
+            ftypes = file_types(c, path) if status == "ok" else None
+        except Exception:  # noqa: BLE001
+            ftypes = None
         try:
             path.unlink()
         except OSError:
@@ -648,6 +741,13 @@ def eval_cases(chk, cases, tmpdir: Path):
         chk.count("row_chunks", min(4, -(-nrows // max(1, c["r"]))))
         chk.count("workers", c["workers"])
         chk.count("has_na", any(x is None for _, cells in c["cols"] for x in cells))
+        chk.count("key_values", c.get("key_style", "small"))
+        chk.count("feature_specials", c.get("specials") or "none")
+        if c["fmt"] == "pin":
+            chk.count("text_shape", ("crlf" if c.get("eol") == "\r\n" else "lf") + ("" if c.get("final_eol", True) else "/no-final-eol")
+                      + ("/gz" if c["suffix"].endswith(".gz") else ""))
+        else:
+            chk.count("parquet_label_type", c.get("label_type") or "default")
         chk.count("well_formed", wf)
         chk.count("impl", status)
         info = dict(case=jsonable(c))
@@ -685,13 +785,24 @@ def eval_cases(chk, cases, tmpdir: Path):
         bad = generic_clauses(c, out)
         if out.get("index") != list(range(nrows)):
             bad.append("index")
+        if out.get("path") != str(path):
+            bad.append("path")
+        exp_types = None
+        if ftypes is not None and [n for n, _ in ftypes] == out["columns"]:
+            tmap = dict(ftypes)
+            exp_types = [tmap.get(m) for m in out["metadata"]]
+            if out.get("meta_types") != exp_types:
+                bad.append("meta_types")
+            else:
+                type_reqs.append((i, c, ftypes, out.get("meta_types")))
+        chk.count("meta_types_compared", exp_types is not None)
         if wf and default_args:
             bad = bad + [f for f in diff_fields(out, spec) if f not in bad]
         if wf_args:
             bad = bad + [f for f in diff_fields(out, spec_args) if f not in bad]
         if bad:
             f0 = bad[0]
-            exp = dict(spec_args if wf_args else spec, index=list(range(nrows)))
+            exp = dict(spec_args if wf_args else spec, index=list(range(nrows)), path=str(path), meta_types=exp_types)
             chk.spec_violation("clause:" + f0,
                                dict(info, impl={k: out.get(k) for k in bad}, expected={k: exp.get(k) for k in bad},
                                     clause=CLAUSE.get(f0, f"field {f0} differs from the specification")))
@@ -705,6 +816,14 @@ def eval_cases(chk, cases, tmpdir: Path):
                                                  model={k: model.get(k) for k in d}))
             if out.get("index") != model_index:
                 chk.corr_break("pin-index", dict(info, impl=out.get("index"), model=model_index))
+    # the types of the metadata columns: model of pin.py:207 on the types the file itself declares
+    if type_reqs:
+        tresp = common.driver_batch([req("pin-types", wire_args(c), ft) for _, c, ft, _ in type_reqs])
+        for (i, c, ft, impl_types), line in zip(type_reqs, tresp):
+            r = dec(line)
+            model_types = r if isinstance(r, str) else [a_str(x) for x in r]
+            if model_types != impl_types:
+                chk.corr_break("pin-types", dict(case=jsonable(c), impl=impl_types, model=model_types))
 
 
 # ----------------------------------------------------------------------------
@@ -851,6 +970,23 @@ def gen_label_case(rng):
     return m
 
 
+U64_VALUES = [2 ** 64 - 1, 2 ** 64 - 1, 2 ** 64 - 2, 2 ** 63, 2 ** 63 + 1, 2 ** 63 - 1, 2 ** 32 + 1]
+
+
+def gen_u64_label_case(rng):
+    """a table whose integer label column has no negative value: labels 1 / 0, in two cases out of three with one
+    large value (from 2^63 on pandas / pyarrow type the column unsigned 64-bit and `astype(int)` wraps)"""
+    m = gen_case(rng, nmax=5, force=dict(label_enc="01", nrows=rng.choice([1, 2, 3, 4]), na_mode="none"))
+    i = [n.lower() for n, _ in m["cols"]].index("label")
+    lab = [int(x) for x in m["cols"][i][1]]
+    if rng.random() < 0.67:
+        lab[rng.randrange(len(lab))] = rng.choice(U64_VALUES)
+    m["cols"][i][1] = lab
+    m["label_type"] = None
+    m["kind"] = "labels:u64"
+    return m
+
+
 def wire_label(x):
     from fractions import Fraction
 
@@ -868,7 +1004,7 @@ def eval_label_cases(chk, cases, tmpdir: Path):
     lines = []
     for c in cases:
         lab = [cells for n, cells in c["cols"] if n.lower() == "label"][0]
-        lines.append(req("pin-labels", [wire_label(x) for x in lab]))
+        lines.append(req("pin-labels-u64" if c["kind"] == "labels:u64" else "pin-labels", [wire_label(x) for x in lab]))
     resp = common.driver_batch(lines)
     for i, c in enumerate(cases):
         r = dec(resp[i])
@@ -901,7 +1037,7 @@ def eval_label_cases(chk, cases, tmpdir: Path):
                 chk.reject(model_err + "/" + type(out).__name__)
             continue
         if outside:
-            chk.spec_violation("malformed-accepted:fractional-label",
+            chk.spec_violation("malformed-accepted:" + ("unsigned-label" if c["kind"] == "labels:u64" else "fractional-label"),
                                dict(info, impl=dict(targets=out.get("targets")), expected="an exception",
                                     clause=f"label value(s) {outside} outside {{-1, 0, 1}}: not rejected"))
             continue
@@ -911,6 +1047,284 @@ def eval_label_cases(chk, cases, tmpdir: Path):
             continue
         if model is None or out.get("targets") != model:
             chk.corr_break("pin-labels", dict(info, impl=out.get("targets"), model=model if model is not None else model_err))
+
+
+# ----------------------------------------------------------------------------
+# create_chunks_with_identifier called directly
+# ----------------------------------------------------------------------------
+def idchunks_cases(counts, id_counts, cs):
+    return [dict(kind="idchunks", n=n, k=k, c=c) for n in counts for k in id_counts for c in cs]
+
+
+def eval_idchunks_cases(chk, cases):
+    """the real `create_chunks_with_identifier(data, identifier_column, chunk_size)` vs the model `idChunks` and vs
+    the clauses proved of it: the chunks concatenate to data + identifiers (`C10_idchunks_cover`), exactly one chunk
+    holds all identifier columns (`C10_idchunks_together`), no chunk is empty or larger than max(c, #identifiers)
+    (`C10_idchunks_sizes`)"""
+    P = importlib.import_module("mokapot.parsers.pin")
+    lines = []
+    for c in cases:
+        lines.append(req("pin-idchunks", list(range(c["n"])), [1000 + j for j in range(c["k"])], c["c"]))
+    resp = common.driver_batch(lines)
+    for c, line in zip(cases, resp):
+        data, ids = list(range(c["n"])), [1000 + j for j in range(c["k"])]
+        r = dec(line)
+        model = r if isinstance(r, str) else [[int(x) for x in ch] for ch in r]
+        chk.case(None, ("idchunks", c["n"], c["k"], c["c"]), sample=dict(idchunks=c))
+        chk.count("kind", "idchunks")
+        chk.count("idchunks_remainder", "0" if (c["n"] + c["k"]) % c["c"] == 0
+                  else ("<ids" if (c["n"] + c["k"]) % c["c"] < c["k"] else ">=ids"))
+        chk.count("idchunks_ids_vs_c", "ids>c" if c["k"] > c["c"] else "ids<=c")
+        info = dict(case=dict(c))
+        try:
+            out = P.create_chunks_with_identifier(list(data), list(ids), c["c"])
+            out = [list(ch) for ch in out]
+        except Exception as e:  # noqa: BLE001
+            chk.spec_violation("idchunks:exception:" + type(e).__name__,
+                               dict(info, impl=f"{type(e).__name__}: {e}", expected=model,
+                                    clause="create_chunks_with_identifier raised on a chunk size >= 1"))
+            continue
+        bad = None
+        if [x for ch in out for x in ch] != data + ids:
+            bad = "cover"
+        elif sum(1 for ch in out if set(ids) <= set(ch)) != 1:
+            bad = "together"
+        elif any(len(ch) == 0 or len(ch) > max(c["c"], c["k"]) for ch in out):
+            bad = "sizes"
+        if bad:
+            chk.spec_violation("idchunks:" + bad,
+                               dict(info, impl=out, expected=model,
+                                    clause={"cover": "the column chunks do not concatenate to features + identifiers",
+                                            "together": "not exactly one column chunk holds all identifier columns",
+                                            "sizes": "a column chunk is empty or larger than max(chunk size, "
+                                                     "number of identifiers)"}[bad]))
+            continue
+        if out != model:
+            chk.corr_break("pin-idchunks", dict(info, impl=out, model=model))
+
+
+# ----------------------------------------------------------------------------
+# OnDiskPsmDataset(...) constructed directly: the column existence checks
+# ----------------------------------------------------------------------------
+CTOR_SCALARS = ["target", "peptide", "protein", "scan", "specid"]
+CTOR_OPTIONALS = ["filename", "calcmass", "expmass", "rt", "charge"]
+CTOR_LISTS = ["columns", "spectrum", "features", "metadata", "level"]
+# the order of the tests in OnDiskPsmDataset.__init__ (dataset.py:512-526)
+CTOR_ORDER = ["columns", "target", "peptide", "protein", "spectrum", "features", "metadata", "level", "filename",
+              "scan", "calcmass", "expmass", "rt", "charge", "specid"]
+CTOR_KW = dict(columns="columns", target="target_column", spectrum="spectrum_columns", peptide="peptide_column",
+               protein="protein_column", features="feature_columns", metadata="metadata_columns",
+               level="level_columns", filename="filename_column", scan="scan_column", specid="specId_column",
+               calcmass="calcmass_column", expmass="expmass_column", rt="rt_column", charge="charge_column")
+
+
+def gen_perturbation(rng):
+    """one abstract change of one constructor argument (applied to whatever the parse of the base table gave)"""
+    u = rng.random()
+    if u < 0.3:
+        field = rng.choice(CTOR_SCALARS)
+        op = rng.choice(["absent", "absent", "wrongcase", "empty", "none", "other"])
+    elif u < 0.55:
+        field = rng.choice(CTOR_OPTIONALS)
+        op = rng.choice(["absent", "absent", "wrongcase", "empty", "none", "other"])
+    else:
+        field = rng.choice(CTOR_LISTS)
+        op = rng.choice(["replace-absent", "replace-wrongcase", "append-absent", "prepend-absent", "replace-empty",
+                         "clear", "none", "append-other", "tuple"])
+    return dict(field=field, op=op, pos=rng.randrange(1000))
+
+
+def gen_ctor_case(rng):
+    base = gen_case(rng, nmax=6, force=dict(nrows=rng.choice([1, 2, 3]), na_mode=rng.choice(["none", "onecell"])))
+    base["entry"], base["call"], base["form"] = "read_pin", "kw", "path"
+    k = rng.choice([0, 1, 1, 1, 1, 2])
+    return dict(kind="ctor", base=base, perturb=[gen_perturbation(rng) for _ in range(k)],
+                nofile=rng.random() < 0.1)
+
+
+def apply_perturbation(fields, header, pt):
+    """returns the changed value of the field"""
+    f, op, pos = pt["field"], pt["op"], pt["pos"]
+    v = fields[f]
+    absent = "no_such_" + f  # (one name per field: the message of the constructor names the first offender)
+
+    def wrongcase(name):
+        alt = name.swapcase() if isinstance(name, str) else absent
+        return alt if alt not in header else absent
+
+    other = header[pos % len(header)]  # some column of the file: always admissible
+    if f in CTOR_LISTS:
+        lst = list(v) if v is not None else []
+        i = pos % len(lst) if lst else 0
+        if op == "replace-absent" and lst:
+            lst[i] = absent
+        elif op == "replace-wrongcase" and lst:
+            lst[i] = wrongcase(lst[i])
+        elif op == "replace-empty" and lst:
+            lst[i] = ""
+        elif op in ("append-absent", "replace-absent", "replace-wrongcase", "replace-empty"):
+            lst.append(absent)
+        elif op == "prepend-absent":
+            lst.insert(0, absent)
+        elif op == "append-other":
+            lst.append(other)
+        elif op == "clear":
+            lst = []
+        elif op == "none":
+            return None
+        elif op == "tuple":
+            return tuple(lst)
+        return lst
+    if op == "absent":
+        return absent
+    if op == "wrongcase":
+        return wrongcase(v) if v else absent
+    if op == "empty":
+        return ""
+    if op == "none":
+        return None
+    return other
+
+
+def ctor_expected(header, fields):
+    """direct re-statement of dataset.py:497-526: the first name, in the order of the tests, that is non-empty and
+    not a column of the file (None: the dataset is accepted)"""
+    for f in CTOR_ORDER:
+        v = fields[f]
+        names = ([] if v is None else list(v)) if f in CTOR_LISTS else [v]
+        for n in names:
+            if n and n not in header:
+                return n
+    return None
+
+
+def wire_ctor_fields(fields):
+    def nm(v):
+        return "" if v is None else v
+
+    def opt(v):
+        return Atom("none") if v is None else [v]
+
+    def lst(v):
+        return [] if v is None else list(v)
+
+    return [lst(fields["columns"]), nm(fields["target"]), lst(fields["spectrum"]), nm(fields["peptide"]),
+            nm(fields["protein"]), lst(fields["features"]), lst(fields["metadata"]), lst(fields["level"]),
+            opt(fields["filename"]), nm(fields["scan"]), nm(fields["specid"]), opt(fields["calcmass"]),
+            opt(fields["expmass"]), opt(fields["rt"]), opt(fields["charge"]), [], []]
+
+
+def eval_ctor_cases(chk, cases, tmpdir: Path):
+    import re
+
+    import mokapot
+    from mokapot.dataset import OnDiskPsmDataset
+
+    prepared = []
+    for i, c in enumerate(cases):
+        base = c["base"]
+        path = tmpdir / f"ctor{i}{base['suffix']}"
+        write_case(base, path)
+        header = [n for n, _ in base["cols"]]
+        try:
+            ds = mokapot.read_pin(path, max_workers=1)[0]
+        except Exception as e:  # noqa: BLE001  (reported by the ordinary cases; nothing to construct from)
+            chk.reject("ctor-base-not-parsed/" + type(e).__name__)
+            continue
+        fields = dict(columns=list(ds.columns), target=ds.target_column, spectrum=list(ds.spectrum_columns),
+                      peptide=ds.peptide_column, protein=ds.protein_column, features=list(ds.feature_columns),
+                      metadata=list(ds.metadata_columns), level=list(ds.level_columns), filename=ds.filename_column,
+                      scan=ds.scan_column, specid=ds.specId_column, calcmass=ds.calcmass_column,
+                      expmass=ds.expmass_column, rt=ds.rt_column, charge=ds.charge_column)
+        for pt in c["perturb"]:
+            fields[pt["field"]] = apply_perturbation(fields, header, pt)
+        prepared.append((c, path, header, ds, fields))
+    lines = [req("pin-checks", Atom("none") if c["nofile"] else [header], wire_ctor_fields(fields))
+             for c, _, header, _, fields in prepared]
+    resp = common.driver_batch(lines)
+    for (c, path, header, ds, fields), line in zip(prepared, resp):
+        r = dec(line)
+        model_status, model_culprit, model_same = r[0], d_opt(r[1]), a_bool(r[2])
+        expected = None if c["nofile"] else ctor_expected(header, fields)
+        kw = {CTOR_KW[f]: v for f, v in fields.items()}
+        try:
+            obj = OnDiskPsmDataset(filename=None if c["nofile"] else path, metadata_column_types=ds.metadata_column_types,
+                                   spectra_dataframe=ds.spectra_dataframe, **kw)
+            status, culprit = "ok", None
+        except ValueError as e:
+            m = re.match(r"Column '(.*)' not found in data columns of file", str(e), re.S)
+            status, culprit = ("reject", m.group(1)) if m else ("error", f"ValueError: {e}")
+        except Exception as e:  # noqa: BLE001
+            status, culprit = "error", f"{type(e).__name__}: {str(e)[:200]}"
+        try:
+            path.unlink()
+        except OSError:
+            pass
+        key = (tuple(n.lower() for n in header), tuple((p["field"], p["op"], p["pos"] % 7) for p in c["perturb"]),
+               c["nofile"])
+        chk.case(None, key, sample=dict(ctor=[(p["field"], p["op"]) for p in c["perturb"]], nofile=c["nofile"],
+                                        impl=[status, culprit], expected=expected))
+        chk.count("kind", "ctor")
+        chk.count("ctor_perturbations", len(c["perturb"]))
+        for p in c["perturb"]:
+            chk.count("ctor_field", p["field"])
+            chk.count("ctor_op", p["op"])
+        chk.count("ctor_file", "filename=None" if c["nofile"] else "file")
+        chk.count("ctor_expected", "accepted" if expected is None else "refused")
+        info = dict(case=jsonable(c), fields=json.loads(json.dumps(fields)))
+        if (model_status == "ok") != (expected is None) or (expected is not None and model_culprit != expected):
+            chk.corr_break("pin-checks-spec", dict(info, impl="-", model=[model_status, model_culprit],
+                                                   expected=expected))
+        if status == "error":
+            chk.spec_violation("ctor:unexpected-exception",
+                               dict(info, impl=culprit, expected=expected or "accepted",
+                                    clause="OnDiskPsmDataset raised something other than its column error"))
+        elif status == "reject" and expected is None:
+            chk.spec_violation("ctor:known-columns-refused",
+                               dict(info, impl=f"Column '{culprit}' not found", expected="accepted",
+                                    clause="every name handed to OnDiskPsmDataset is a column of the file (or empty / "
+                                           "None), the constructor refused it"))
+        elif status == "ok" and expected is not None:
+            chk.spec_violation("ctor:foreign-column-accepted",
+                               dict(info, impl="accepted", expected=f"Column '{expected}' not found",
+                                    clause=f"'{expected}' is not a column of the file, the constructor accepted it"))
+        elif status == "ok":
+            stored = {f: getattr(obj, CTOR_KW[f]) for f in fields}
+            diff = [f for f in fields if stored[f] != fields[f]]
+            if diff or obj.filename != (None if c["nofile"] else path):
+                chk.spec_violation("ctor:fields-not-stored",
+                                   dict(info, impl={f: repr(stored[f]) for f in diff}, expected="the values given",
+                                        clause="OnDiskPsmDataset does not store the fields it was given"))
+            elif not model_same or model_status != "ok":
+                chk.corr_break("pin-checks", dict(info, impl="ok", model=[model_status, model_culprit]))
+        elif culprit != model_culprit or model_status == "ok":
+            chk.corr_break("pin-checks", dict(info, impl=[status, culprit], model=[model_status, model_culprit]))
+
+
+def ctor_cases(rng, n):
+    return [gen_ctor_case(rng) for _ in range(n)]
+
+
+def ctor_sweep(rng):
+    """every one of the fifteen constructor arguments once with an absent and once with a wrong-case name, and every
+    pair of consecutive tests with both names absent (a permutation of the tests other than the identity changes the
+    relative order of two consecutive ones, hence the column named in the message)"""
+    base = gen_case(rng, nmax=5, force=dict(nrows=2, na_mode="none", opt=["filename", "ret_time", "expmass", "calcmass"],
+                                            fmt=rng.choice(["pin", "parquet"])))
+    base["entry"], base["call"], base["form"] = "read_pin", "kw", "path"
+
+    def one(field, kind):
+        if field in CTOR_LISTS:
+            return dict(field=field, op="append-absent" if kind == "absent" else "replace-wrongcase", pos=rng.randrange(1000))
+        return dict(field=field, op=kind, pos=0)
+
+    cases = []
+    for f in CTOR_ORDER:
+        for kind in ("absent", "wrongcase"):
+            cases.append(dict(kind="ctor", base=base, perturb=[one(f, kind)], nofile=False))
+    for f, g in zip(CTOR_ORDER, CTOR_ORDER[1:]):
+        cases.append(dict(kind="ctor", base=base, perturb=[one(g, "absent"), one(f, "absent")], nofile=False))
+    return cases
 
 
 # ----------------------------------------------------------------------------
@@ -995,7 +1409,7 @@ def files_cases(rng, n):
 
 
 def label_cases(rng, n):
-    return [gen_label_case(rng) for _ in range(n)]
+    return [gen_label_case(rng) for _ in range(n)] + [gen_u64_label_case(rng) for _ in range((n + 1) // 2)]
 
 
 def malformed_cases(rng, per_kind):
@@ -1018,7 +1432,8 @@ def search(chk):
         run_in_batches(chk, sweep_feature_counts(rng, range(1, 61), [None, 1, 2, 3, 5, 7], ["pin", "parquet"]), tmp)
         if not chk.spec_violations:
             run_in_batches(chk, random_cases(rng, 1500) + malformed_cases(rng, 40) + args_sweep(rng) + files_cases(rng, 300)
-                           + label_cases(rng, 100), tmp)
+                           + label_cases(rng, 100) + ctor_cases(rng, 600) + ctor_sweep(rng)
+                           + idchunks_cases(range(0, 61), range(1, 7), list(range(1, 31)) + [64, 100]), tmp)
         if not chk.spec_violations:
             run_in_batches(chk, sweep_masks(rng), tmp)
     finally:
@@ -1073,7 +1488,8 @@ def minimise(chk):
 
 
 def main(chk, args):
-    build = common.build_and_audit("C10", extra_targets=["MokapotVerif.Mutants.Pin", "MokapotVerif.Mutants.PinExt"])
+    build = common.build_and_audit("C10", extra_targets=["MokapotVerif.Mutants.Pin", "MokapotVerif.Mutants.PinExt",
+                                                         "MokapotVerif.Mutants.PinChecks"])
     if not build.driver_ok:
         chk.finish(build, RULE)
     rng = chk.rng
@@ -1086,6 +1502,9 @@ def main(chk, args):
             cases += args_sweep(rng)
             cases += files_cases(rng, 36)
             cases += label_cases(rng, 20)
+            cases += ctor_cases(rng, 60) + ctor_sweep(rng)
+            # create_chunks_with_identifier directly: every feature count 0..60 x identifier count x chunk size
+            cases += idchunks_cases(range(0, 61), range(1, 6), [1, 2, 3, 4, 5, 7, 18, 19, 20, 21, 64])
             # every feature count 1..60 (all residues modulo the default column chunk size 19)
             cases += sweep_feature_counts(rng, range(1, 61), [None], ["pin", "parquet"])
             cases += sweep_feature_counts(rng, range(1, 9), [1, 2, 3, 4], ["pin", "parquet"])
@@ -1096,6 +1515,8 @@ def main(chk, args):
             cases += args_sweep(rng) + args_sweep(rng) + args_sweep(rng)
             cases += files_cases(rng, 450)
             cases += label_cases(rng, 240)
+            cases += ctor_cases(rng, 900) + ctor_sweep(rng) + ctor_sweep(rng) + ctor_sweep(rng)
+            cases += idchunks_cases(range(0, 61), range(1, 7), list(range(1, 31)) + [64, 100])
             cases += sweep_feature_counts(rng, range(1, 61), [None, 1, 2, 3, 4, 5, 7, 11], ["pin", "parquet"])
             run_in_batches(chk, cases, tmp)
             masks = sweep_masks(rng)
@@ -1109,8 +1530,8 @@ def main(chk, args):
     minimise(chk)
     lc = None
     if chk.tier == "thorough":
-        lc1, lc2 = common.leanchecker("C10"), common.leanchecker("C10Ext")
-        lc = (lc1[0] and lc2[0], lc1[1] + lc2[1])
+        lc1, lc2, lc3 = common.leanchecker("C10"), common.leanchecker("C10Ext"), common.leanchecker("C10Checks")
+        lc = (lc1[0] and lc2[0] and lc3[0], lc1[1] + lc2[1] + lc3[1])
     chk.assumptions += [
         "pandas.read_csv / pyarrow decide which cells are missing (NA tokens, nulls, NaN) and infer the column "
         "dtypes; the model receives the table after that decoding (cells: missing | int | bool | text)",
@@ -1121,6 +1542,9 @@ def main(chk, args):
         "pd.concat of the appended frames concatenates rows in list order and keeps their row labels",
         "the readers number the rows of a file consecutively over the row chunks (tabular_data.py, property C13)",
         "a float label is sent to the model as the exact rational value of the double that pandas / pyarrow decode",
+        "the column types handed to the model of pin.py:207 are the ones the file declares when read without "
+        "mokapot (Arrow schema; dtypes pandas infers from the first two data rows)",
+        "the header OnDiskPsmDataset re-reads from the file is the header the table was written with",
     ]
     chk.finish(build, RULE, search=search, lc=lc,
                trusted_extra=["pandas read_csv (type inference, NA tokens, chunksize), pyarrow Parquet "
